@@ -1278,6 +1278,61 @@ type taintSink struct {
 }
 
 // taintWrites: interprocedural, field-based taint from the results of `seeds` to in-place writes.
+// localFieldSources: the values stored into field `field` of a struct that lives in a local: direct field
+// stores, and - through whole-struct copies from other such locals - theirs.  ok is false when the struct is
+// filled in a way this function cannot see (copied from a parameter or a call result, address passed on).
+func localFieldSources(al *ssa.Alloc, field int, depth int) ([]ssa.Value, bool) {
+	if al.Referrers() == nil || depth > 4 {
+		return nil, false
+	}
+	var out []ssa.Value
+	for _, r := range *al.Referrers() {
+		switch u := r.(type) {
+		case *ssa.FieldAddr:
+			if u.Field != field {
+				continue
+			}
+			for _, r2 := range *u.Referrers() {
+				switch w := r2.(type) {
+				case *ssa.Store:
+					if w.Addr == u {
+						out = append(out, w.Val)
+					}
+				case *ssa.UnOp:
+					// a load
+				default:
+					return nil, false // address of the field escapes
+				}
+			}
+		case *ssa.UnOp:
+			if u.Op != token.MUL {
+				return nil, false
+			}
+		case *ssa.Store:
+			if u.Addr != al {
+				return nil, false // the address itself is stored somewhere
+			}
+			ld, ok := u.Val.(*ssa.UnOp)
+			if !ok || ld.Op != token.MUL {
+				return nil, false
+			}
+			src, ok := ld.X.(*ssa.Alloc)
+			if !ok {
+				return nil, false
+			}
+			sub, ok := localFieldSources(src, field, depth+1)
+			if !ok {
+				return nil, false
+			}
+			out = append(out, sub...)
+		case *ssa.DebugRef:
+		default:
+			return nil, false
+		}
+	}
+	return out, true
+}
+
 func taintWrites(ci *concInfo, seeds map[*ssa.Function]string) []taintSink {
 	tainted := map[ssa.Value]string{}
 	type fkey struct {
@@ -1369,6 +1424,18 @@ func taintWrites(ci *concInfo, seeds map[*ssa.Function]string) []taintSink {
 					case *ssa.UnOp:
 						if x.Op == token.MUL {
 							if fa, ok := x.X.(*ssa.FieldAddr); ok {
+								// a struct that lives in a local of this function and is only ever filled field by field: the
+								// field holds what was stored into THIS struct, not what some other struct of the type holds
+								if al, ok := fa.X.(*ssa.Alloc); ok {
+									if srcs, ok := localFieldSources(al, fa.Field, 0); ok {
+										for _, v := range srcs {
+											if s, ok := tainted[v]; ok {
+												mark(x, s)
+											}
+										}
+										continue
+									}
+								}
 								if s, ok := fieldT[structKey(fa.X.Type(), fa.Field)]; ok {
 									mark(x, s)
 								}
